@@ -36,6 +36,9 @@ def rand_text(r, probe):
             return gen.join_stmts(pr.toks)
         text, _, _, _ = gen.layout_text(r, pr.toks, newline=r.choice(["\n", "\r\n"]), p_comment=0.1)
         return text
+    if x < 0.42:
+        # imports another document of the session, which exists only in the editor, never on disk
+        return "let o = import \"doc%d.ucg\";\nlet z = o.v + 1;\nlet q = o.nope;\n" % r.randint(0, 2)
     if x < 0.5:
         return "let lib = import \"lib/shared.ucg\";\nlet v = lib.val + %d;\nlet c = lib.cfg.port;\nlet t = lib.mk(\"é\");\n" % r.randint(0, 9)
     if x < 0.7:
@@ -144,7 +147,10 @@ def check_ranges(resp_kind, payload, uri, docs, root, res, witness):
                 continue
             t = text_for_uri(loc["uri"], docs, root)
             if t is None:
-                if loc["uri"].startswith("file://") and not os.path.exists(loc["uri"][7:]):
+                # a location in a file that exists nowhere: fine when the requesting text itself names that file in an import
+                # (the answer is derived from the current text), stale otherwise
+                cur = text_for_uri(uri, docs, root) or ""
+                if loc["uri"].startswith("file://") and not os.path.exists(loc["uri"][7:]) and os.path.basename(loc["uri"]) not in cur:
                     res.violation(["definition-points-to-missing-file"], witness, {"location": loc})
                 continue
             if not range_ok(loc.get("range", {}), t):
@@ -265,6 +271,51 @@ def run_session(r, probe, res, sid):
                 failed = True
                 break
             check_ranges(kind, resp.get("result"), uri, docs, root, res, witness)
+        if not failed and r.random() < 0.3:
+            # sweep: every character position of the lines of one open document (bounded), completion / hover / definition in turn.
+            # Positions that fall inside multi-byte characters (in either unit) only turn up this way.
+            open_docs = [(u, t) for u, t in docs.items() if t is not None and u != uri_of(root, LIBNAME)]
+            if open_docs:
+                suri, stext = r.choice(open_docs)
+                sname = os.path.relpath(suri[7:], root)
+                budget = 150
+                lines_ = stext.split("\n")
+                order_ = sorted(range(len(lines_)), key=lambda i: (not any(ord(c) > 127 for c in lines_[i]), i))
+                for li in order_:
+                    for ch in range(0, min(len(lines_[li].encode("utf-8")) + 2, 60)):
+                        if budget <= 0 or failed:
+                            break
+                        budget -= 1
+                        kind = ("completion", "hover", "definition")[(li + ch) % 3]
+                        method = {"hover": "textDocument/hover", "definition": "textDocument/definition", "completion": "textDocument/completion"}[kind]
+                        script.append([kind, sname, li, ch])
+                        st, resp = client.request(method, {"textDocument": {"uri": suri}, "position": {"line": li, "character": ch}}, timeout=10.0)
+                        res.count("request:" + kind)
+                        if st != "ok":
+                            res.violation(["request-without-response", kind, st], witness, {"stderr": client.stderr_text()[-400:], "text": stext[:300]})
+                            failed = True
+                            break
+                        if "error" in resp:
+                            res.violation(["request-answered-with-error", kind], witness, {"error": resp["error"]})
+                            failed = True
+                            break
+                        check_ranges(kind, resp.get("result"), suri, docs, root, res, witness)
+                res.count("sessions-with-position-sweep")
+        if not failed:
+            # a session document that another open document imports is closed before the final comparison (it was never
+            # saved, so nothing of it may remain), and its importers are touched so that their diagnostics are recomputed
+            imported = [u for u, t in docs.items() if t is not None and any(
+                t2 is not None and u2 != u and ("import \"%s\"" % os.path.basename(u[7:])) in t2 for u2, t2 in docs.items())]
+            for u in imported:
+                script.append(["didClose", os.path.relpath(u[7:], root)])
+                client.notify("textDocument/didClose", {"textDocument": {"uri": u}})
+                docs[u] = None
+            if imported or any(sc[0] == "didClose" for sc in script):
+                for u, t in list(docs.items()):
+                    if t is not None and "import \"doc" in t:
+                        script.append(["didChange", os.path.relpath(u[7:], root), t])
+                        client.notify("textDocument/didChange", {"textDocument": {"uri": u, "version": 999}, "contentChanges": [{"text": t}]})
+                res.count("sessions-with-session-document-imports")
         if not failed and any(sc[1] == LIBNAME for sc in script):
             # the editor overlay of the library goes away: from here on only the disk counts again.  Every open document
             # is then touched (same text, new version) so that its diagnostics are recomputed after the close.
